@@ -534,6 +534,7 @@ type simReplica struct {
 	compactTo   uint64 // pending log compaction target
 
 	inStep      bool
+	rng         uint64
 	holdApply   bool // macro scenarios: the apply worker of this replica is stalled
 	stepApplied uint64
 	timeoutOff  uint64
@@ -815,8 +816,14 @@ func (s *sim) crash(r *simReplica) {
 func (s *sim) fixTimeout(r *simReplica) {
 	rf := r.raft()
 	if s.fairMode {
-		// fair phase: pairwise distinct timeouts (possibly beyond the usual
-		// [T, 2T) range) exclude perpetual split votes by construction
+		// fair phase: a deterministic pseudo-random timeout, re-drawn from a wide range
+		// ([T, 5T)) whenever the election timer has just been reset, plays the role of
+		// the core's randomisation: in lock step with fixed timeouts a stale candidate
+		// whose period divides another candidate's period splits the vote for ever
+		if rf.electionTick == 0 {
+			r.rng = r.rng*6364136223846793005 + 1442695040888963407 + r.id
+			r.timeoutOff = (r.rng >> 33) % (4 * rf.electionTimeout)
+		}
 		rf.randomizedElectionTimeout = rf.electionTimeout + r.timeoutOff
 		return
 	}
